@@ -16,6 +16,7 @@ def dispatch (engine : String) (toks : List String) : String :=
   | "reader" => readerLine toks
   | "layout" => readerLine toks
   | "foreign" => readerLine toks
+  | "mutants" => readerLine toks
   | "spec" => specLine toks
   | "enc" => encLine toks
   | "tools" => toolsLine toks
